@@ -154,7 +154,7 @@ PROPS = {
     ),
     "C11": dict(
         module="OrbitModel.Properties.C11",
-        theorems=["Orbit.C11.no_hole_is_forgotten", "Orbit.C11.at_rest_means_complete", "Orbit.C11.later_request_completes",
+        theorems=["Orbit.C11.slots_are_conserved", "Orbit.C11.no_hole_is_forgotten", "Orbit.C11.at_rest_means_complete", "Orbit.C11.later_request_completes",
                   "Orbit.C11.at_most_two_requests", "Orbit.C11.unclean_request_can_miss", "Orbit.C11.pinned_tree_wedges"],
         families=[("cancel", 120, 3000, 8)],
         corr_fields={"values", "heads", "len", "loadq"},
